@@ -371,6 +371,70 @@ class Overlay:
                 self.e2.append(f"E2-b {d['file']}: {sel}: return type `{src[a:b]}` named `{opts['ret']}`")
             fo.ins(fn.body_open, fr); fr.status = "applied"
             return
+        if kind == "mutself":
+            # E2-g: `fn f(mut self, ..) { B }`  =>  `fn f(self, ..) { let mut __self = self; B[self := __self] }`
+            # (the language-defined meaning of a `mut` binding of the receiver; Verus rejects `mut self`)
+            toks = fo.fs.toks
+            nm = opts.get("name", "__self")
+            k = fn.params_open + 1
+            fr = self.new_frag(d, kind, own, "", seq, sel)
+            if not (toks[k].text == "mut" and toks[k + 1].text == "self"):
+                lost(fr, f"fn {sel} has no `mut self` receiver"); return
+            fo.replaces.append((toks[k].start, toks[k + 1].start, "", fr, "E2-g")); fr.status = "applied"
+            cnt = 0
+            for j in range(fn.body_open_tok + 1, fn.body_close_tok):
+                if toks[j].text == "self" and toks[j].kind in ("id", "kw", "ident"):
+                    frj = self.new_frag(d, "mutself-use", own, nm, seq, sel)
+                    fo.replaces.append((toks[j].start, toks[j].end, nm, frj, "E2-g")); frj.status = "applied"
+                    cnt += 1
+            ind = indent_of(fn.item.decl_start)
+            fr3 = self.new_frag(d, "mutself-let", own, f"\n{ind}    let mut {nm} = self;  // E2-g", seq, sel)
+            fo.ins(fn.body_open + 1, fr3); fr3.status = "applied"
+            self.e2.append(f"E2-g {d['file']}: {sel}: `mut self` receiver rewritten to `self` + `let mut {nm} = self;`, {cnt} uses of `self` in the body renamed")
+            return
+        if kind == "closure":
+            # annotate the n-th closure of the body (insertions only):  |x| EXPR  =>  |x: TYPE| -> (b: R) ensures .. { EXPR }
+            # body of the directive:  TYPE-annotation line(s) / `---` / return spec line(s)
+            from rustlex import match_close
+            toks = fo.fs.toks
+            n = int(pos[0])
+            fr = self.new_frag(d, f"closure{n}", own, "", seq, sel)
+            if "\n---\n" not in "\n" + body + "\n":
+                raise ValueError(f"{d['vc']}:{d['line']}: closure needs `---` separator")
+            ptype, rspec = ("\n" + body).split("\n---\n", 1)
+            ptype, rspec = ptype.strip(), " ".join(x.strip() for x in rspec.split("\n") if x.strip())
+            starts = [j for j in range(fn.body_open_tok + 1, fn.body_close_tok)
+                      if toks[j].text == "|" and toks[j - 1].text in ("(", ",", "=", "{", ";", "return", "move")]
+            if n > len(starts):
+                lost(fr, f"fn {sel} has {len(starts)} closures, wanted #{n}"); return
+            j = starts[n - 1]
+            if not (toks[j + 1].kind == "id" and toks[j + 2].text == "|"):
+                lost(fr, f"closure #{n} of {sel} is not of the form |ident| ..."); return
+            if "param" in opts and toks[j + 1].text != opts["param"]:
+                lost(fr, f"closure #{n} of {sel}: parameter is `{toks[j + 1].text}`, contract expects `{opts['param']}`"); return
+            k = j + 3
+            if toks[k].text == "{":
+                lost(fr, f"closure #{n} of {sel} already has a block body"); return
+            depth = 0
+            e = k
+            while e < fn.body_close_tok:
+                t = toks[e].text
+                if t in ("(", "[", "{"):
+                    depth += 1
+                elif t in (")", "]", "}"):
+                    if depth == 0:
+                        break
+                    depth -= 1
+                elif t in (",", ";") and depth == 0:
+                    break
+                e += 1
+            fr.text = ptype
+            fo.ins(toks[j + 1].end, fr); fr.status = "applied"
+            fr2 = self.new_frag(d, f"closure{n}-spec", own, " -> " + rspec + " {", seq, sel)
+            fo.ins(toks[j + 2].end, fr2); fr2.status = "applied"
+            fr3 = self.new_frag(d, f"closure{n}-close", own, " }", seq, sel)
+            fo.ins(toks[e - 1].end, fr3); fr3.status = "applied"
+            return
         if kind == "body-start":
             fr = self.new_frag(d, kind, own, "\n" + body, seq, sel)
             fo.ins(fn.body_open + 1, fr); fr.status = "applied"
@@ -490,6 +554,7 @@ class Overlay:
                 if m:
                     tags = [x for x in re.split(r"[,\s]+", m.group(1)) if x]
                 key = (fr.file, first + k)
-                if key not in res or l.strip():
+                minor = fr.kind.startswith("closure") and not fr.kind.endswith("-spec")   # `: TYPE` / ` }` share the line with the spec
+                if key not in res or (l.strip() and not minor):
                     res[key] = (fr, tags, l.strip())
         return res
